@@ -28,6 +28,9 @@ type c08Case struct {
 	EmptyHeader  bool        `json:"empty_header"`  // a generic header set without values
 	EmptyIgnore  string      `json:"empty_ignore"`  // "", to, cc: an *IgnoreInvalid list that ends up empty
 	MultiLinePre bool        `json:"multiline_pre"` // a preformatted header spanning several lines
+	// FailFirst > 0: before the two verified renders, the message is rendered into a sink that
+	// fails after that many bytes (a failed render must not disturb the next signature).
+	FailFirst int `json:"fail_first,omitempty"`
 }
 
 var (
@@ -87,6 +90,10 @@ func c08Run(c c08Case) []*core.Violation {
 	var vs []*core.Violation
 	var firstEntity []byte
 	np, ne, na := len(spec.Parts), len(spec.Embeds), len(spec.Attachments)
+	if c.FailFirst > 0 {
+		sink := &faultSink{limit: c.FailFirst, partial: true}
+		_, _ = m.WriteTo(sink)
+	}
 	for render := 1; render <= 2; render++ {
 		var buf bytes.Buffer
 		if _, err := m.WriteTo(&buf); err != nil {
@@ -152,7 +159,7 @@ func c08Run(c c08Case) []*core.Violation {
 		}
 		rec.AddExtra("signatures_verified", 1)
 	}
-	feat := fmt.Sprintf("%v/%s/%v", c.EmptyHeader, c.EmptyIgnore, c.MultiLinePre)
+	feat := fmt.Sprintf("%v/%s/%v/%v", c.EmptyHeader, c.EmptyIgnore, c.MultiLinePre, c.FailFirst > 0)
 	rec.NonTrivial(core.Join(spec.ShapeKey(), c.Key, c.Intermediate, c.Via, feat))
 	rec.Sample(fmt.Sprintf("%s/%d", c.Key, np+ne+na), map[string]interface{}{"shape": spec.ShapeKey(), "key": c.Key, "intermediate": c.Intermediate, "via": c.Via, "features": feat})
 	rec.Class("key:" + c.Key)
@@ -194,12 +201,15 @@ func c08Gen(t *rapid.T) c08Case {
 		c.Spec.Cc = []string{"cc@verif.example"}
 	}
 	c.MultiLinePre = rapid.IntRange(0, 3).Draw(t, "multilinepre") == 0
+	if rapid.IntRange(0, 3).Draw(t, "failfirst") == 0 {
+		c.FailFirst = rapid.SampledFrom([]int{1, 50, 100, 300, 500, 900, 1500, 2500}).Draw(t, "failoffset")
+	}
 	return c
 }
 
 func TestC08(t *testing.T) {
 	rec := core.Rec("C08")
-	rec.Rule = "rapid draws message programs (0..3 parts, 0..2 embeds, 0..2 attachments in every combination incl. body-less and file-only messages; QP/base64/8bit per message, part and file; part and file descriptions incl. long ones; long file names; generic headers incl. long and non-ASCII values, a generic header without values, preformatted and multi-line preformatted headers, To/Cc *IgnoreInvalid lists that end up empty; contents in canonical CRLF form; chunked producers), signs them with an ECDSA P-256 or RSA-2048 key, with or without an intermediate certificate, through SignWithKeypair or SignWithTLSCertificate, and renders each message twice. " +
+	rec.Rule = "rapid draws message programs (0..3 parts, 0..2 embeds, 0..2 attachments in every combination incl. body-less and file-only messages; QP/base64/8bit per message, part and file; part and file descriptions incl. long ones; long file names; generic headers incl. long and non-ASCII values, a generic header without values, preformatted and multi-line preformatted headers, To/Cc *IgnoreInvalid lists that end up empty; contents in canonical CRLF form; chunked producers), signs them with an ECDSA P-256 or RSA-2048 key, with or without an intermediate certificate, through SignWithKeypair or SignWithTLSCertificate, and renders each message twice (one case in four after a first render into a sink that fails at a drawn offset). " +
 		"Oracle (own MIME reader + own CMS SignedData verifier on encoding/asn1 and crypto/*): top level multipart/signed with protocol=application/pkcs7-signature and micalg=sha-256 and exactly two parts; SHA-256 of the first part exactly as emitted between the delimiters == the message-digest attribute; signed attributes in DER SET order with content-type id-data; signature valid under the carried signer certificate, which is the one given; intermediate carried iff given; the signed entity's leaves match the model; the second render verifies too and carries the same signed entity. " +
 		"Non-trivial: every case (each exercises the double render). Distinct by (shape key, key type, intermediate, API, header features)."
 	rec.Assumptions = []string{"contents are generated in canonical CRLF form (the property's domain)", "certificate chain validation up to a trust anchor is not part of the property"}
